@@ -223,10 +223,9 @@ func genC22(t *rapid.T) srvCase {
 		if ops[i].Op == "send" {
 			// honest senders; some still stamp the previous epoch (they have not processed the latest announcement)
 			ops[i].Kind = "honest"
+			// (an epoch of zero is the stamp of a client that has not been told any epoch; on the wire it is an absent field)
 			if ops[i].Epoch != "stale" && ops[i].Epoch != "zero" {
 				ops[i].Epoch = "current"
-			} else {
-				ops[i].Epoch = "stale"
 			}
 		}
 		if ops[i].Op == "ack" {
@@ -242,6 +241,13 @@ func genC22(t *rapid.T) srvCase {
 			{Op: "send", P: p, Q: q, Kind: "honest", Epoch: "current"}, {Op: "send", P: p, Q: q, Kind: "honest", Epoch: "current"},
 			{Op: "attach", P: p, Q: q}, {Op: "release", P: q, Q: p}}
 		at := rapid.IntRange(0, len(ops)).Draw(t, "at")
+		ops = append(append(append([]sop{}, ops[:at]...), pat...), ops[at:]...)
+	}
+	if rapid.IntRange(0, 3).Draw(t, "zeropat") == 0 {
+		// on one call: a message stamped with the current epoch, then one without any stamp
+		p := rapid.IntRange(0, 1).Draw(t, "zp")
+		pat := []sop{{Op: "attach", P: p, Q: 1 - p}, {Op: "attach", P: 1 - p, Q: p}, {Op: "send", P: p, Q: 1 - p, Kind: "honest", Epoch: "current"}, {Op: "send", P: p, Q: 1 - p, Kind: "honest", Epoch: "zero"}}
+		at := rapid.IntRange(0, len(ops)).Draw(t, "zat")
 		ops = append(append(append([]sop{}, ops[:at]...), pat...), ops[at:]...)
 	}
 	if rapid.IntRange(0, 3).Draw(t, "listenpat") == 0 {
